@@ -11,6 +11,7 @@ func TestMain(m *testing.M) { harn.Main(m) }
 func init() {
 	harn.Register("C02_Write", RunWrite)
 	harn.Register("C03_Read", RunRead)
+	harn.Register("C03_Wait", RunWait)
 }
 
 func TestReplay(t *testing.T)  { harn.Replay(t) }
@@ -19,6 +20,8 @@ func TestRegress(t *testing.T) { harn.Regress(t) }
 func TestC02_Write(t *testing.T) { harn.Check(t, "C02_Write", GenWriteCase, RunWrite) }
 
 func TestC03_Read(t *testing.T) { harn.Check(t, "C03_Read", GenReadCase, RunRead) }
+
+func TestC03_Wait(t *testing.T) { harn.Check(t, "C03_Wait", GenWaitCase, RunWait) }
 
 func FuzzFraming(f *testing.F) {
 	for _, s := range framingCorpus() {
